@@ -877,12 +877,15 @@ pub fn check(world: &World, sc: &C17, sandbox: &str) -> Report {
                 return rep;
             }
         };
-        let mut m: HashMap<String, Gcv> = HashMap::new();
+        // ordered list of entries; the map handed to the library is built first thing in a fresh
+        // thread, so that its iteration order (= entry order of the archive) is a function of the
+        // scenario's seed only and not of how many maps this thread happened to create before
+        let mut entries: Vec<(String, Gcv)> = Vec::new();
         if let Some(specs) = &sc.ctx {
             for (l, s) in specs {
                 match build_set(&garch, s) {
                     Ok(x) => {
-                        m.insert(l.clone(), x);
+                        entries.push((l.clone(), x));
                     }
                     Err(e) => {
                         rep.skipped = Some(e);
@@ -893,25 +896,41 @@ pub fn check(world: &World, sc: &C17, sandbox: &str) -> Report {
         }
         if let Some(ch) = &chained_ctx {
             let canonical = biodivine_lib_param_bn::symbolic_async_graph::SymbolicContext::new(&bn).unwrap();
-            for (l, s) in ch {
-                if let Some(b) = garch.symbolic_context().transfer_from(s.as_bdd(), &canonical) {
-                    m.insert(l.clone(), Gcv::new(b, garch.symbolic_context()));
+            let mut ls: Vec<&String> = ch.keys().collect();
+            ls.sort();
+            for l in ls {
+                if let Some(b) = garch.symbolic_context().transfer_from(ch[l].as_bdd(), &canonical) {
+                    entries.push((l.clone(), Gcv::new(b, garch.symbolic_context())));
                 }
             }
         }
         if sc.ctx_decoys {
             // entries in a sub-directory (a zipped results folder with an `old/` copy): their names
             // are `old/<label>`, which no formula can refer to
-            let labels: Vec<String> = m.keys().cloned().collect();
+            let labels: Vec<String> = entries.iter().map(|(l, _)| l.clone()).collect();
             for (i, l) in labels.iter().enumerate() {
                 if let Ok(x) = build_set(&garch, &SetSpec::Dnf(77 + i as u64 + sc.rand % 1000)) {
-                    m.insert(format!("old/{l}"), x.clone());
-                    m.insert(format!("backup/1/{l}"), x);
+                    entries.push((format!("old/{l}"), x.clone()));
+                    entries.push((format!("backup/1/{l}"), x));
                 }
             }
             rep.probe("context_archives_with_subdirectory_entries", 1);
         }
-        if build_result_archive(m, &ctx_path, &bn.to_string(), vec![]).is_err() {
+        let model_str = bn.to_string();
+        let written = isolated(sc.rand ^ 0x31, || {
+            let mut m: HashMap<String, Gcv> = HashMap::new();
+            for (l, s) in &entries {
+                m.insert(l.clone(), s.clone());
+            }
+            let order: Vec<String> = m.keys().cloned().collect();
+            build_result_archive(m, &ctx_path, &model_str, vec![]).map_err(|e| e.to_string())?;
+            Ok(order)
+        });
+        match &written {
+            Outcome::Ok(order) => rep.event(format!("context archive entries {order:?}")),
+            _ => {}
+        }
+        if !matches!(written, Outcome::Ok(_)) {
             rep.skipped = Some("cannot write context archive".to_string());
             return rep;
         }
